@@ -21,6 +21,7 @@ class Seqs:
         self.arrays: dict[str, tuple] = {}      # str(arr) -> (arr, n, elem_fn(k)->term, origin 'spec'|'code')
         self.idx: list = []                     # index terms at which pointwise facts are instantiated
         self.loop_idx: list = []                # loop indices (psum_step, psum_single)
+        self.single_idx: list = []              # further candidates for psum_single only (positions where a key / name occurs)
         self.vectors: dict[str, object] = {}    # str(vref) -> VecInfo
         self.done: set[str] = set()
         self.folds: list = []                   # (kind, args) prefix folds to step at loop indices
@@ -35,7 +36,7 @@ def seqs(ip) -> Seqs:
     return s
 
 
-def add_index(ip, k, loop: bool = False) -> None:
+def add_index(ip, k, loop: bool = False, single: bool = False) -> None:
     s = seqs(ip)
     if isinstance(k, int):
         k = z3.IntVal(k)
@@ -43,6 +44,8 @@ def add_index(ip, k, loop: bool = False) -> None:
         s.idx.append(k)
     if loop and not any(k.eq(x) for x in s.loop_idx):
         s.loop_idx.append(k)
+    if single and not any(k.eq(x) for x in s.single_idx):
+        s.single_idx.append(k)
 
 
 def skolem(ip, hint: str, n):
@@ -93,6 +96,7 @@ def saturate(ip, rounds: int = 2) -> None:
             for i in list(s.loop_idx):
                 if _once(ip, f"step:{arr}:{i}"):                   # lean: psum_succ  (Finset.sum_range_succ)
                     p.assume(S.PSUM(arr, i + 1) == S.PSUM(arr, i) + z3.Select(arr, i))
+            for i in list(s.loop_idx) + list(s.single_idx):
                 if origin == "spec" and _once(ip, f"single:{arr}:{n}:{i}"):   # lean: psum_single (Finset.sum_eq_single)
                     sk = skolem(ip, "sk_single", n)
                     p.assume(z3.Or(z3.Not(z3.And(i >= 0, i < n)), S.PSUM(arr, n) == z3.Select(arr, i),
@@ -100,7 +104,7 @@ def saturate(ip, rounds: int = 2) -> None:
         for arr, n, elem, origin in arrays:
             if origin != "spec":
                 continue
-            li = list(s.loop_idx)
+            li = list(s.loop_idx) + [x for x in s.single_idx if not any(x.eq(y) for y in s.loop_idx)]
             for a_ in range(len(li)):
                 for b_ in range(a_ + 1, len(li)):
                     i, j = li[a_], li[b_]
@@ -201,7 +205,10 @@ def register_vector(sp, v, w=None, E=None, PV=None):
             p.assume(REGALL(v, w, E, PV, z3.IntVal(0)))
             # Skolem witnesses for the closed forms at n        lean: exists_prefix_elim / forall_prefix_intro
             sk1 = skolem(ip, "sk_occ", n)
-            add_index(ip, sk1, loop=True)        # candidate for psum_single: the position where the variable occurs
+            if ip.path.ghost.get("occ_single"):
+                # candidate for psum_single: the position where the variable occurs (requested by the row contracts, where no
+                # loop of the code walks the vector)
+                add_index(ip, sk1, single=True)
             p.assume(z3.Implies(OCCV(v, w, n), z3.And(sk1 >= 0, sk1 < n, OCCE(v, sk1, w))))
             sk2 = skolem(ip, "sk_reg", n)
             p.assume(z3.Or(REGALL(v, w, E, PV, n), z3.And(sk2 >= 0, sk2 < n, z3.Not(REGV(v, sk2, w, E, PV)))))
@@ -377,7 +384,7 @@ def keyed_map(ip, S, key_fn, val_fn, n=None, desc="dict", require_distinct=True)
         pos = POS(nm)
         if not any(nm.eq(a) for a in asked):
             asked.append(nm)
-            add_index(ip, pos, loop=True)      # also a psum_single candidate: the position of the key
+            add_index(ip, pos, single=True)    # also a psum_single candidate: the position of the key
             index_used(ip, pos)
             for k in list(s.idx):
                 instantiate(nm, k)
